@@ -160,6 +160,14 @@ func (p *Prog) Named(pkg, name string) *types.Named {
 	}
 	m, ok := sp.Members[name].(*ssa.Type)
 	if !ok {
+		// a type renamed relative to the reference tree
+		for tn, ref := range canonType {
+			if ref == name && tn.Pkg() != nil && tn.Pkg() == sp.Pkg {
+				if n, ok := tn.Type().(*types.Named); ok {
+					return n
+				}
+			}
+		}
 		return nil
 	}
 	n, _ := m.Type().(*types.Named)
@@ -300,13 +308,14 @@ func fnName(fn *ssa.Function) string {
 	}
 	s := fn.String()
 	s = strings.ReplaceAll(s, modPath+"/", "")
+	s = normType(s)
 	if len(canonFn) > 0 {
 		top := fn
 		for top.Parent() != nil {
 			top = top.Parent()
 		}
 		if ref, ok := canonFn[top]; ok {
-			cur := strings.ReplaceAll(top.String(), modPath+"/", "")
+			cur := normType(strings.ReplaceAll(top.String(), modPath+"/", ""))
 			if strings.HasPrefix(s, cur) {
 				s = ref + s[len(cur):]
 			}
